@@ -30,7 +30,7 @@ type DialGreet struct {
 	HoldMs    int    `json:"hold_poller_ms"`  // another connection's data callback keeps the poller busy this long while the dials complete
 	TimeoutMs int    `json:"dial_timeout_ms"` // 0 = DialAsync
 	HalfClose bool   `json:"half_close"`
-	Transport string `json:"transport"` // tcp, unix
+	Transport string `json:"transport"` // tcp, unix, udp (the dialed socket says hello, the server greets with datagrams)
 	// GreetDelayMs: the server waits this long after accepting before it sends the greeting, so that the
 	// event which reports the connect (or the first writability) carries no input yet
 	GreetDelayMs int `json:"greet_delay_ms,omitempty"`
@@ -48,11 +48,57 @@ func runDialGreet(c DialGreet) vlib.Result {
 		defer os.RemoveAll(dir)
 		addr = filepath.Join(dir, "s")
 	}
-	ln, err := net.Listen(c.Transport, addr)
-	if err != nil {
-		return vlib.Fail("harness: listen: %v", err)
+	dialAddr := ""
+	var ln net.Listener
+	if c.Transport == "udp" {
+		// datagrams: the server answers the first datagram of every remote address with the greeting, cut into
+		// datagrams of 1000 bytes (at most 20, paced: nothing the kernel would drop)
+		if c.GreetLen > 20000 {
+			c.GreetLen = 20000
+		}
+		c.HalfClose = false
+		pc, err := net.ListenUDP("udp", &net.UDPAddr{IP: net.IPv4(127, 0, 0, 1)})
+		if err != nil {
+			return vlib.Fail("harness: listen udp: %v", err)
+		}
+		defer pc.Close()
+		dialAddr = pc.LocalAddr().String()
+		go func() {
+			seen := map[string]bool{}
+			buf := make([]byte, 2048)
+			for {
+				_, ra, err := pc.ReadFromUDP(buf)
+				if err != nil {
+					return
+				}
+				if seen[ra.String()] {
+					continue
+				}
+				seen[ra.String()] = true
+				go func(ra *net.UDPAddr) {
+					if c.GreetDelayMs > 0 {
+						time.Sleep(time.Duration(c.GreetDelayMs) * time.Millisecond)
+					}
+					for off := 0; off < c.GreetLen; off += 1000 {
+						n := c.GreetLen - off
+						if n > 1000 {
+							n = 1000
+						}
+						_, _ = pc.WriteToUDP(vlib.FillTagged(0, int64(off), n), ra)
+						time.Sleep(300 * time.Microsecond)
+					}
+				}(ra)
+			}
+		}()
+	} else {
+		var err error
+		ln, err = net.Listen(c.Transport, addr)
+		if err != nil {
+			return vlib.Fail("harness: listen: %v", err)
+		}
+		defer ln.Close()
+		dialAddr = ln.Addr().String()
 	}
-	defer ln.Close()
 	var pmu sync.Mutex
 	var peers []net.Conn
 	defer func() {
@@ -63,6 +109,9 @@ func runDialGreet(c DialGreet) vlib.Result {
 		pmu.Unlock()
 	}()
 	go func() {
+		if ln == nil {
+			return
+		}
 		for {
 			p, err := ln.Accept()
 			if err != nil {
@@ -176,12 +225,15 @@ func runDialGreet(c DialGreet) vlib.Result {
 			}
 			mu.Unlock()
 			atomic.AddInt64(&okDials, 1)
+			if c.Transport == "udp" {
+				_, _ = nc.Write([]byte("hello")) // the server learns the address and greets
+			}
 		}
 		var derr error
 		if c.TimeoutMs > 0 {
-			derr = g.DialAsyncTimeout(c.Transport, ln.Addr().String(), time.Duration(c.TimeoutMs)*time.Millisecond, cb)
+			derr = g.DialAsyncTimeout(c.Transport, dialAddr, time.Duration(c.TimeoutMs)*time.Millisecond, cb)
 		} else {
-			derr = g.DialAsync(c.Transport, ln.Addr().String(), cb)
+			derr = g.DialAsync(c.Transport, dialAddr, cb)
 		}
 		if derr != nil {
 			return vlib.Fail("harness: DialAsync: %v", derr)
@@ -234,7 +286,7 @@ func genDialGreet(t *rapid.T) DialGreet {
 	c.HoldMs = rapid.SampledFrom([]int{0, 5, 30}).Draw(t, "holdms")
 	c.TimeoutMs = rapid.SampledFrom([]int{0, 0, 5000}).Draw(t, "timeoutms")
 	c.HalfClose = rapid.IntRange(0, 3).Draw(t, "halfclose") == 0
-	c.Transport = rapid.SampledFrom([]string{"tcp", "tcp", "unix"}).Draw(t, "transport")
+	c.Transport = rapid.SampledFrom([]string{"tcp", "tcp", "unix", "udp"}).Draw(t, "transport")
 	c.GreetDelayMs = rapid.SampledFrom([]int{0, 0, 2, 40}).Draw(t, "greetdelay")
 	return c
 }
